@@ -136,7 +136,7 @@ func toEvents(evs []ev) []nodeh.Event {
 // strictly increasing watermarks placed so that no record is late.
 // locMode: 0 all UTC; 1 one Location per instant (mixed, but equal instants are identical
 // structs); 2 a random Location per record (the same instant appears in several Locations).
-func genStream(rng *rand.Rand, n int, locMode int) []ev {
+func genStream(rng *rand.Rand, n int, locMode int, nullMode int) []ev {
 	var evs []ev
 	var present []row
 	w := 0
@@ -155,6 +155,14 @@ func genStream(rng *rand.Rand, n int, locMode int) []ev {
 		return nil
 	}
 	nKeys := 2 + rng.Intn(2)
+	// nullMode 1: one key whose v is NULL in every record (a NULL-only group next to normal
+	// ones: count(*) counts, count(v)/sum/min/max are NULL), more NULLs elsewhere, and groups
+	// that lost a row are refilled with NULL-valued records
+	nullKey := ""
+	if nullMode == 1 {
+		nullKey = string(rune('a' + rng.Intn(nKeys)))
+	}
+	var emptied []row
 	for iter := 0; len(evs) < n && iter < 30*n; iter++ {
 		r := rng.Intn(12)
 		switch {
@@ -177,6 +185,7 @@ func genStream(rng *rand.Rand, n int, locMode int) []ev {
 			i := cand[rng.Intn(len(cand))]
 			p := present[i]
 			present = append(present[:i], present[i+1:]...)
+			emptied = append(emptied, p)
 			evs = append(evs, ev{r: p, retr: true, loc: loc(p.tick)})
 		default:
 			if w >= maxTick {
@@ -190,6 +199,16 @@ func genStream(rng *rand.Rand, n int, locMode int) []ev {
 			if rng.Intn(5) != 0 {
 				v := rng.Intn(7) - 2
 				rw.v = &v
+			}
+			if nullMode == 1 {
+				if rw.k == nullKey || rng.Intn(3) == 0 {
+					rw.v = nil
+				}
+				if len(emptied) > 0 && rng.Intn(3) == 0 {
+					if e := emptied[rng.Intn(len(emptied))]; e.tick > w {
+						rw = row{tick: e.tick, k: e.k}
+					}
+				}
 			}
 			present = append(present, rw)
 			evs = append(evs, ev{r: rw, loc: loc(tick)})
@@ -328,26 +347,78 @@ type inCase struct {
 	evs      []ev
 	optimize bool
 	locMode  int
+	alt      []ev // a different stream for a further run of the same plan
+	// lookup: the triggered group-by is the joined side of a LOOKUP JOIN over 3 left rows
+	// (octosql runs that node once per left row within one query)
+	lookup bool
 }
 
+var leftIDs = []int64{7, 8, 9}
+
+func leftTable() *nodeh.Table {
+	var evs []nodeh.Event
+	for _, id := range leftIDs {
+		evs = append(evs, nodeh.Rec([]octosql.Value{octosql.NewInt(id)}, false, time.Time{}))
+	}
+	return &nodeh.Table{Fields: []physical.SchemaField{{Name: "id", Type: octosql.Int}}, TimeField: -1, Events: evs}
+}
+
+func (sh shape) lookupSQL(cfg trigh.Config) string {
+	cols := make([]string, len(sh.keys))
+	for i, k := range sh.keys {
+		cols[i] = "g." + k + " AS " + k
+	}
+	return "SELECT o.id AS id, " + strings.Join(cols, ", ") + ", g.c AS c, g.cv AS cv, g.s AS s, g.mn AS mn, g.mx AS mx FROM m.o o LOOKUP JOIN (" + sh.sql(cfg) + ") g"
+}
+
+// runIn plans the query once and judges every execution of the same materialized plan with the
+// final-result oracle: the first run, a second run over the same stream, a third over a
+// different stream (a node that is run again must give the batch result again).
 func runIn(c *core.Ctx, cs inCase, corrupt bool) {
-	c.Eval(1)
 	sql := cs.sh.sql(cs.cfg)
-	events := toEvents(cs.evs)
-	replay := map[string]interface{}{"id": cs.id, "leg": "in-process", "sql": sql, "optimize": cs.optimize, "input": evsString(cs.evs), "input_events": nodeh.EventsString(events)}
-	_, outs, res, perr := trigh.RunSteps(context.Background(), sql, tableFields, 0, events, cs.optimize)
+	var extra map[string]*nodeh.Table
+	if cs.lookup {
+		sql = cs.sh.lookupSQL(cs.cfg)
+		extra = map[string]*nodeh.Table{"o": leftTable()}
+	}
+	h, perr := trigh.PlanSteps(context.Background(), sql, tableFields, 0, cs.optimize, extra)
 	if perr != nil {
-		c.Violation("plan-error:"+perr.Stage, "query was rejected: "+perr.Error(), replay)
+		c.Eval(1)
+		c.Violation("plan-error:"+perr.Stage, "query was rejected: "+perr.Error(), map[string]interface{}{"id": cs.id, "sql": sql})
 		return
+	}
+	type run struct {
+		evs   []ev
+		label string
+	}
+	runs := []run{{cs.evs, ""}, {cs.evs, "rerun-same-stream"}}
+	if cs.alt != nil {
+		runs = append(runs, run{cs.alt, "rerun-other-stream"})
+	}
+	for i, r := range runs {
+		events := toEvents(r.evs)
+		outs, res := h.Run(context.Background(), events)
+		if !judgeIn(c, cs, r.evs, sql, events, outs, res, r.label, corrupt && i == 0) {
+			return
+		}
+	}
+}
+
+func judgeIn(c *core.Ctx, cs inCase, stream []ev, sql string, events []nodeh.Event, outs []nodeh.Out, res nodeh.RunResult, label string, corrupt bool) bool {
+	c.Eval(1)
+	cs.evs = stream
+	replay := map[string]interface{}{"id": cs.id, "leg": "in-process", "sql": sql, "optimize": cs.optimize, "input": evsString(cs.evs), "input_events": nodeh.EventsString(events)}
+	if label != "" {
+		replay["run"] = label
 	}
 	replay["output"] = nodeh.OutsString(outs)
 	if res.Panicked {
 		c.Violation("panic:"+core.PanicSite(res.Stack), "query panicked: "+res.PanicMsg, replay)
-		return
+		return false
 	}
 	if res.Err != nil {
 		c.Violation("error", "query returned error: "+res.Err.Error(), replay)
-		return
+		return false
 	}
 	if corrupt {
 		// self-test: drop the last emitted insertion from the recording
@@ -360,10 +431,29 @@ func runIn(c *core.Ctx, cs inCase, corrupt bool) {
 	}
 	got := nodeh.ConsolidateOuts(outs, -1)
 	want, keyOf := reference(cs.sh, cs.evs)
+	if cs.lookup {
+		// every left row joined with the batch grouping
+		joined := nodeh.Multiset{}
+		jk := map[string]string{}
+		for _, id := range leftIDs {
+			for rk, n := range want {
+				k := nodeh.RowKey([]octosql.Value{octosql.NewInt(id)}) + "|" + rk
+				joined.Add(k, n)
+				jk[k] = keyOf[rk]
+			}
+		}
+		want, keyOf = joined, jk
+	}
 	replay["expected"] = want.String()
 	replay["consolidated_output"] = got.String()
 	if !got.Equal(want) {
 		key := "final-result-differs:" + cs.cfg.Name() + "@" + cs.sh.name
+		if cs.lookup {
+			key = "lookup-join-" + key
+		}
+		if label != "" {
+			key = "rerun-differs:" + key
+		}
 		if corrupt {
 			key = "selftest:final-result-differs"
 		} else if cs.cfg.Has('W') {
@@ -386,7 +476,21 @@ func runIn(c *core.Ctx, cs inCase, corrupt bool) {
 			}
 		}
 		c.Violation(key, fmt.Sprintf("consolidated output at end of stream %s differs from the batch grouping %s (output - expected = %s)", got, want, got.Diff(want)), replay)
-		return
+		return false
+	}
+	nullOnly := 0
+	for rk := range want {
+		if strings.HasSuffix(rk, "|NULL|NULL|NULL|NULL") {
+			nullOnly++
+		}
+	}
+	c.Count("in/final_rows_of_null_only_groups", nullOnly)
+	if label != "" {
+		c.Count("in/reruns_judged/"+label, 1)
+		return true
+	}
+	if cs.lookup {
+		c.Count("in/lookup_join_cases", 1)
 	}
 	nRec, nRetr, nWM := 0, 0, 0
 	for _, e := range cs.evs {
@@ -429,6 +533,7 @@ func runIn(c *core.Ctx, cs inCase, corrupt bool) {
 		delete(replay, "input_events")
 		c.Sample(replay)
 	}
+	return true
 }
 
 // =============================================================================================
@@ -709,6 +814,29 @@ func Run(c *core.Ctx) core.FinishOpts {
 			cases = append(cases, inCase{id: "in-witness/" + cfg.Name(), cfg: cfg, sh: shapes[0], evs: w, optimize: true, locMode: 2})
 		}
 	}
+	// fixed streams with NULL aggregate arguments, under every configuration and shape:
+	// (0) key a is emitted, emptied by retractions and refilled with NULL-only records (with
+	// COUNTING 3 between two firings), next to a normal key; (1) a NULL-only group next to a
+	// normal one across a watermark; (2) emptied, then NULL-only
+	{
+		five, two, three, four := 5, 2, 3, 4
+		r := func(tick int, k string, v *int, retr bool) ev { return ev{r: row{tick, k, v}, retr: retr} }
+		ws := [][]ev{
+			{r(1, "a", &five, false), r(1, "a", &five, false), r(1, "a", &five, true), r(1, "b", &two, false), r(1, "a", &five, true), r(1, "a", nil, false), r(1, "a", nil, false), {isWM: true, wm: 1}, r(2, "b", &three, false)},
+			{r(1, "n", nil, false), r(1, "a", &three, false), r(1, "n", nil, false), {isWM: true, wm: 1}, r(2, "n", nil, false), r(2, "a", &four, false), r(2, "n", nil, false), r(2, "n", nil, true)},
+			{r(1, "a", &five, false), r(1, "a", &five, true), r(1, "a", nil, false), r(1, "a", nil, false), r(1, "a", nil, false), r(1, "a", nil, false)},
+		}
+		for wi, w := range ws {
+			for _, sh := range shapes {
+				for _, cfg := range configs {
+					if cfg.Has('W') && !sh.allowsW {
+						continue
+					}
+					cases = append(cases, inCase{id: fmt.Sprintf("in-nullwit/%d/%s/%s", wi, sh.name, cfg.Name()), cfg: cfg, sh: sh, evs: w, optimize: true})
+				}
+			}
+		}
+	}
 	for s := 0; s < nStreams; s++ {
 		var sh shape
 		switch r := rng.Intn(20); {
@@ -722,13 +850,26 @@ func Run(c *core.Ctx) core.FinishOpts {
 			sh = shapes[3]
 		}
 		locMode := []int{0, 1, 1, 2, 2}[rng.Intn(5)]
-		evs := genStream(rng, 8+rng.Intn(c.Pick(25, 40)), locMode)
+		nullMode := s % 2 // every second stream carries NULL-only groups and NULL refills
+		evs := genStream(rng, 8+rng.Intn(c.Pick(25, 40)), locMode, nullMode)
+		alt := genStream(rng, 6+rng.Intn(14), locMode, nullMode)
 		optimize := rng.Intn(4) != 0
-		for _, cfg := range configs {
+		for ci, cfg := range configs {
 			if cfg.Has('W') && !sh.allowsW {
 				continue
 			}
-			cases = append(cases, inCase{id: fmt.Sprintf("in/%d/%s", s, cfg.Name()), cfg: cfg, sh: sh, evs: evs, optimize: optimize, locMode: locMode})
+			cs := inCase{id: fmt.Sprintf("in/%d/%s", s, cfg.Name()), cfg: cfg, sh: sh, evs: evs, optimize: optimize, locMode: locMode}
+			if (s+ci)%2 == 0 {
+				cs.alt = alt
+			}
+			cases = append(cases, cs)
+			if (s+ci)%5 == 0 {
+				lc := cs
+				lc.id = fmt.Sprintf("in-lookup/%d/%s", s, cfg.Name())
+				lc.alt = nil
+				lc.lookup = true
+				cases = append(cases, lc)
+			}
 		}
 	}
 	c.Note("in_process_streams", nStreams)
